@@ -320,6 +320,12 @@ def search(seeds, rng):
 
 # arguments on which the translated source of a kernel and the hand model differ under lsb0 -> ordinary cases of this module
 def kernel_cases(name, a):
+    if name in ('k_offset_slice_indices_lsb0', 'k_indices'):
+        import random
+        n = a['args']['length']; k = a['args']['key' if name == 'k_offset_slice_indices_lsb0' else 's']
+        bits = rand_bits(random.Random(n * 7 + 1), n, 'rand')
+        return [{'op': 'slice', 'bits': bits, 'k': k, 'cls': 'Bits'}, {'op': 'delslice', 'bits': bits, 'k': k},
+                {'op': 'setslice', 'bits': bits, 'k': k, 'v': rand_bits(random.Random(n), len(bits[slice(*k)]) if k[2] != 0 else 1, 'rand')}]
     if not a['lsb0']: return []
     x = a['args']; out = []
     mk = lambda op, **kw: dict({'op': op, 'bits': a['self'], 'cls': 'BitArray'}, **kw)
